@@ -177,6 +177,9 @@ type pipeCfg struct {
 	full bool
 	// noNorm: the server runs with DisableHeaderNamesNormalizing (names reach the framing code as sent)
 	noNorm bool
+	// opts: further server options as a bit set — 1 NoDefaultServerHeader, 2 NoDefaultContentType, 4 MaxKeepBodySize = 8
+	// bytes, 16 DisablePreParseMultipartForm, 32 DisableKeepalive
+	opts int
 }
 
 type pipeObs struct {
@@ -198,6 +201,13 @@ func runPipe(frags [][]byte, cfg pipeCfg) pipeObs {
 		}
 		o.NoDefaultDate = true
 		o.DisableHeaderNamesNormalizing = cfg.noNorm
+		o.NoDefaultServerHeader = cfg.opts&1 != 0
+		o.NoDefaultContentType = cfg.opts&2 != 0
+		if cfg.opts&4 != 0 {
+			o.MaxKeepBodySize = 8
+		}
+		o.DisablePreParseMultipartForm = cfg.opts&16 != 0
+		o.DisableKeepalive = cfg.opts&32 != 0
 	})
 	n := 0
 	e.Any("/*p", func(c context.Context, ctx *app.RequestContext) {
